@@ -6,7 +6,7 @@ NOTE = ("Trusted: Coq kernel + vm_compute; the harness (module generator, finger
         "read back from the real output with wasmparser; wasmparser's validator for 'the output validates'). Modelled, not verified: mod.rs reorganise_generic, "
         "get_mapping_generic, recalculate_ids, add_import/add_*/delete_*/convert_* and the index rewriting of encode_internal.")
 def mk(pid, thms, rule, text, n=1600, tn=30000):
-    return dict(engine="reindex", check_targets=["Check/CheckReidx.vo"], proof_targets=["Props/%s.vo" % pid],
+    return dict(engine="reindex", gen=(["GenRefers"] if pid in ("C06", "C07", "C08") else []), check_targets=["Check/CheckReidx.vo"], proof_targets=["Props/%s.vo" % pid],
                 theorems=[(pid, t) for t in thms], quick=dict(n=n), thorough=dict(n=tn), per_shard=300,
                 rule=rule, level_text=text, level_note=NOTE, trusted_base=TB,
                 technique="Coq theorems about the index-space model + abstract handle specification evaluated in Coq on the real output + refutation witnesses",
@@ -17,16 +17,16 @@ GEN = ("generated base modules (0-5 imports of all five kinds interleaved, 1-4 l
        "function-list and expression element segments, active data segments with constant and global.get offsets) and histories of 0-7 edits (add local/import, delete, local->import, "
        "import->local with built bodies that carry references, iterator-level add_global, add/delete export, add_data) using the ids the API really returned; references in original, built and injected code; ")
 PROPS = {
- "C06": mk("C06", ["C06_reorganise_closed_form", "C06_index_space_closed_form", "C06_mapping_position", "C06_mapping_injective", "C06_mapping_absent"],
+ "C06": mk("C06", ["C06_reorganise_closed_form", "C06_index_space_closed_form", "C06_mapping_position", "C06_mapping_injective", "C06_mapping_absent", "C06_function_operator_tables_exact"],
            GEN + "non-trivial = history non-empty and at least one reference site",
            "Partial proof: closed form of reorganise_generic (all vectors), position / injectivity / absence theorems of the id map; the full binding property is decided per history by evaluating, in Coq, "
            "the abstract handle specification against the decoded real output (every function reference kind, import-section order via Wasm's index rule, validity), with known classes D02 D05 D06 D07 D26."),
- "C07": mk("C07", ["C07_index_space_closed_form", "C07_mapping_position"],
+ "C07": mk("C07", ["C07_index_space_closed_form", "C07_mapping_position", "C07_global_operator_tables_exact"],
            GEN + "biased to globals (global.get in code / initialisers / data offsets, global exports)",
            "Partial proof (shared index-space theorems) + per-history evaluation of the handle specification for every global reference kind; known classes D03 (exports copied) D24 (id collision) D06."),
- "C08": mk("C08", ["C08_index_space_closed_form", "C08_mapping_position"],
+ "C08": mk("C08", ["C08_index_space_closed_form", "C08_mapping_position", "C08_every_memory_operator_is_reindexed", "C08_memory_tables_exact"],
            GEN + "biased to memories (i32.load/i64.store/memory.size/grow/fill/copy/v128.load/i32.atomic.load on every memory, memory exports, active data segments)",
-           "Partial proof (shared index-space theorems) + per-history evaluation for every memory reference kind. The operator-table theorem (all memarg operators are rewritten) is refuted today (D04) and tracked separately."),
+           "Partial proof (shared index-space theorems) + per-history evaluation for every memory reference kind. The operator-table theorem (every one of the 619 operators of the pinned wasmparser that carries a memory index is classified and rewritten) is proved over tables the translator regenerates from /repo/src/ir/wrappers.rs on every check (it was false before the repair of D04)."),
  "C09": mk("C09", ["C09_deleted_survivors", "C09_live_items_kept", "C09_dangling_reference_is_loud"],
            GEN + "at least one deletion (function / global / memory / import / export), with and without remaining references",
            "Proof: which deleted items can survive recalculate_ids (only the D06 / D26 shapes), every live item is kept, a dangling id has no map entry (loud failure); per-history evaluation of 'exactly the live "
